@@ -109,6 +109,25 @@ fn one_case(ctx: &mut Ctx, index: u64, bytes: &[u8], class: &str) {
                 }
             }
         }
+        // ... and a sample is saved to a file that already holds an earlier (usually longer or shorter) save
+        if index % 8 == 3 && !ctx.out.is_empty() {
+            let dir = std::path::Path::new(&ctx.out).parent().map(|p| p.to_path_buf()).unwrap_or_else(std::env::temp_dir);
+            let path = dir.join(format!("c04-save-{}-{}.osu", std::process::id(), ctx.shard));
+            match m.encode_to_path(&path) {
+                Ok(()) => {
+                    ctx.count("saves_over_an_existing_file");
+                    match std::fs::read(&path) {
+                        Ok(on_disk) if on_disk == enc.as_bytes() => {}
+                        Ok(on_disk) => {
+                            ctx.violation("saved_file_differs", format!("encode_to_path over an existing file left {} bytes on disk, the encoding has {}", on_disk.len(), enc.len()), index, bytes);
+                            return;
+                        }
+                        Err(e) => ctx.inconclusive(format!("cannot read back the scratch file {}: {e}", path.display())),
+                    }
+                }
+                Err(e) => ctx.inconclusive(format!("encode_to_path to the scratch file {} failed: {e}", path.display())),
+            }
+        }
         ctx.count(&format!("class_{class}"));
         ctx.count("encodings_checked");
         nontrivial = !m.hit_objects.is_empty() || !m.control_points.timing_points.is_empty();
